@@ -1,7 +1,14 @@
 package keeper
 
 import (
+	"encoding/json"
+
+	codectypes "github.com/cosmos/cosmos-sdk/codec/types"
+	sdk "github.com/cosmos/cosmos-sdk/types"
 	paramtypes "github.com/cosmos/cosmos-sdk/x/params/types"
+	"github.com/gogo/protobuf/proto"
+
+	packettypes "github.com/teleport-network/teleport/x/xibc/core/packet/types"
 
 	"github.com/teleport-network/teleport/x/xibc/core/client/types"
 	"github.com/teleport-network/teleport/x/xibc/core/host"
@@ -59,4 +66,35 @@ func VerifC14NodeLocalReads() {
 	rt.Reach("both-nodes-executed")
 	rt.Assert("N3-same-answer-on-both-nodes", s1 == s2 && ok1 == ok2)
 	rt.Assert("N3-same-store-accesses-charged-on-both-nodes", n1 == n2)
+}
+
+// VerifC14TypedEventAttributeOrder (2-safety): teleport emits its events with EventManager.EmitTypedEvent (24 call sites in
+// the state machine). The cosmos-sdk version /repo builds against converts a typed event by marshalling it to JSON,
+// unmarshalling that into a map and ranging over the map: the real conversion function is executed twice, with two map
+// iteration orders, on an event with two fields (marshalling and JSON parsing are stubs that return the same two fields
+// both times); the attribute lists must be the same.
+func VerifC14TypedEventAttributeOrder() {
+	rt.Override("github.com/cosmos/cosmos-sdk/codec.ProtoMarshalJSON", func(msg proto.Message, r codectypes.InterfaceRegistry) ([]byte, error) {
+		return []byte(`{"src_chain":"a","sequence":"1"}`), nil
+	})
+	rt.Override("encoding/json.Unmarshal", func(data []byte, v interface{}) error {
+		m := v.(*map[string]json.RawMessage)
+		*m = map[string]json.RawMessage{"src_chain": json.RawMessage(`"a"`), "sequence": json.RawMessage(`"1"`)}
+		return nil
+	})
+	rt.Override("github.com/gogo/protobuf/proto.MessageName", func(proto.Message) string { return "teleport.xibc.core.packet.v1.EventSendPacket" })
+	ev := &packettypes.EventSendPacket{SrcChain: "a", Sequence: "1"}
+	rt.MapOrder(0)
+	a, errA := sdk.TypedEventToEvent(ev)
+	rt.MapOrder(1)
+	b, errB := sdk.TypedEventToEvent(ev)
+	rt.MapOrder(0)
+	rt.Assume(errA == nil && errB == nil)
+	rt.Reach("converted-twice")
+	same := len(a.Attributes) == len(b.Attributes)
+	for i := 0; same && i < len(a.Attributes); i++ {
+		same = string(a.Attributes[i].Key) == string(b.Attributes[i].Key)
+	}
+	rt.Known("H16-typed-event-attribute-order-follows-map-iteration", len(a.Attributes) >= 2)
+	rt.Assert("N4-typed-event-attributes-in-the-same-order-on-every-node", same)
 }
